@@ -3,6 +3,7 @@ package props
 import (
 	"reflect"
 	"encoding/json"
+	"sort"
 	"regexp"
 	"errors"
 	"fmt"
@@ -206,7 +207,136 @@ func applyEdit(sel *node.Selection, strategy string, src node.Node) (err error) 
 	return fmt.Errorf("strategy %s", strategy)
 }
 
+// lists keyed by every type, created by the library inside an empty Go map (both reflection backends): the entries
+// upserted are the entries read, each is found by its key, a second upsert updates in place
+func c03keyTypes(c *core.Ctx) {
+	type kt struct {
+		yang string
+		keys []string // JSON texts of three key values
+		urls []string // the same as path segments
+	}
+	kts := []kt{
+		{"string", []string{`"b"`, `"a"`, `"c d"`}, []string{"b", "a", "c%20d"}},
+		{"enumeration { enum a; enum b; enum c { value 9; } }", []string{`"b"`, `"a"`, `"c"`}, []string{"b", "a", "c"}},
+		{"boolean", []string{`true`, `false`}, []string{"true", "false"}},
+		{"int8", []string{`5`, `-3`, `127`}, []string{"5", "-3", "127"}},
+		{"int16", []string{`5`, `-300`, `32767`}, []string{"5", "-300", "32767"}},
+		{"int32", []string{`5`, `-3`, `2147483647`}, []string{"5", "-3", "2147483647"}},
+		{"int64", []string{`5`, `-3`, `9007199254740993`}, []string{"5", "-3", "9007199254740993"}},
+		{"uint8", []string{`5`, `0`, `255`}, []string{"5", "0", "255"}},
+		{"uint16", []string{`5`, `0`, `65535`}, []string{"5", "0", "65535"}},
+		{"uint32", []string{`5`, `0`, `4294967295`}, []string{"5", "0", "4294967295"}},
+		{"uint64", []string{`18446744073709551615`, `3`, `0`}, []string{"18446744073709551615", "3", "0"}},
+		{"decimal64 { fraction-digits 2; }", []string{`1.5`, `0.25`, `-7`}, []string{"1.5", "0.25", "-7"}},
+		{"bits { bit x; bit y; }", []string{`"x y"`, `"x"`, `"y"`}, []string{"x%20y", "x", "y"}},
+		{"identityref { base idb; }", []string{`"two"`, `"one"`}, []string{"two", "one"}},
+		{"union { type int32; type string; }", []string{`"s"`, `4`, `"t"`}, []string{"s", "4", "t"}},
+		{"binary", []string{`"aGk="`, `"AA=="`, `"+//+"`}, []string{"aGk%3D", "AA%3D%3D", "%2B%2F%2F%2B"}},
+	}
+	for _, k := range kts {
+		semi := ";"
+		if strings.HasSuffix(k.yang, "}") {
+			semi = ""
+		}
+		y := "module kt { namespace \"urn:kt\"; prefix kt; revision 2020-01-01; identity idb; identity one { base idb; } identity two { base idb; }\n  container box { list l { key k; leaf k { type " + k.yang + semi + " } leaf v { type string; } } }\n}"
+		m, err := parser.LoadModuleFromString(nil, y)
+		if err != nil {
+			c.Violation(core.Replay{Kind: "harness", Summary: "c03keyTypes module: " + err.Error(), Input: y, NoInputFound: true})
+			continue
+		}
+		var ents, ents2 []string
+		for i, kv := range k.keys {
+			ents = append(ents, fmt.Sprintf(`{"k":%s,"v":"v%d"}`, kv, i))
+			ents2 = append(ents2, fmt.Sprintf(`{"k":%s,"v":"w%d"}`, kv, i))
+		}
+		doc := `{"box":{"l":[` + strings.Join(ents, ",") + `]}}`
+		doc2 := `{"box":{"l":[` + strings.Join(ents2, ",") + `]}}`
+		canon := func(js string) string {
+			var v struct {
+				Box struct {
+					L []map[string]interface{} `json:"l"`
+				} `json:"box"`
+			}
+			dec := json.NewDecoder(strings.NewReader(js))
+			dec.UseNumber()
+			if err := dec.Decode(&v); err != nil {
+				return "not JSON: " + js
+			}
+			var rows []string
+			for _, e := range v.Box.L {
+				rows = append(rows, fmt.Sprint(e["v"], "<-", e["k"]))
+			}
+			sort.Strings(rows)
+			return strings.Join(rows, " ")
+		}
+		for _, backend := range []string{"node-map", "reflect-map"} {
+			var got, got2 string
+			var finds []string
+			e := safeDo(func() error {
+				data := map[string]interface{}{}
+				var root node.Node = &nodeutil.Node{Object: data}
+				if backend == "reflect-map" {
+					root = nodeutil.ReflectChild(data)
+				}
+				b := node.NewBrowser(m, root)
+				src, err := nodeutil.ReadJSON(doc)
+				if err != nil {
+					return err
+				}
+				if err := b.Root().UpsertFrom(src); err != nil {
+					return err
+				}
+				if got, err = nodeutil.WriteJSON(b.Root()); err != nil {
+					return err
+				}
+				for i, u := range k.urls {
+					sel, err := b.Root().Find("box/l=" + u)
+					switch {
+					case err != nil:
+						finds = append(finds, "error "+short(err.Error()))
+					case sel == nil:
+						finds = append(finds, "nil")
+					default:
+						v, _ := sel.GetValue("v")
+						finds = append(finds, fmt.Sprint(v))
+					}
+					_ = i
+				}
+				src2, _ := nodeutil.ReadJSON(doc2)
+				if err := b.Root().UpsertFrom(src2); err != nil {
+					return err
+				}
+				got2, err = nodeutil.WriteJSON(b.Root())
+				return err
+			})
+			c.Evaluations++
+			c.Count("key_type", strings.Fields(k.yang)[0])
+			c.Distinct("keytype " + backend + k.yang)
+			var wantFinds []string
+			for i := range k.urls {
+				wantFinds = append(wantFinds, fmt.Sprintf("v%d", i))
+			}
+			problem := ""
+			switch {
+			case e != nil:
+				problem = e.Error()
+			case canon(got) != canon(doc):
+				problem = fmt.Sprintf("reads back %s", short(got))
+			case fmt.Sprint(finds) != fmt.Sprint(wantFinds):
+				problem = fmt.Sprintf("Find by key gives %v, want %v", finds, wantFinds)
+			case canon(got2) != canon(doc2):
+				problem = fmt.Sprintf("after the second upsert it reads %s", short(got2))
+			}
+			if problem != "" {
+				c.Violation(core.Replay{Kind: "property-failure", Class: "key-type-" + backend + "-" + strings.Fields(k.yang)[0], Summary: fmt.Sprintf("%s, list keyed by %s, upsert of %s into an empty map: %s", backend, k.yang, doc, problem),
+					Input: map[string]interface{}{"yang": y, "backend": backend, "document": doc, "second_document": doc2}})
+			}
+		}
+	}
+}
+
 func C03(c *core.Ctx) {
+	c03keyTypes(c)
 	c.Rule = "generated schemas (leaves with/without defaults, containers, lists with 1–2 keys, depth ≤3) × pairs (source, target) of conforming trees with controlled key overlap × strategy × entry point (root, container, list entry) × source implementation (reference store, JSON reader, XML reader with list entries contiguous and interleaved with their siblings, reflection over maps, nodeutil.Node) × target implementation (reference store, reflection over maps, nodeutil.Node); result tree and error class compared with the Lean editor model and the merge specification. non-trivial = both trees non-empty; distinct by (schema, source, target, strategy, entry, implementations)"
 	c.Assumptions = append(c.Assumptions,
 		"the reference store (harness/refstore) implements the store contract of the model: child/list exists iff it holds data, Next{New} appends, lookups by key text",
